@@ -7,7 +7,7 @@
    them with the model (V_mismatch).  Depends on Model.v only. *)
 From Coq Require Import String List ZArith NArith Bool.
 From TM Require Import Common.Hex Generated.Consts.
-From TM Require Export C17.Model C17.ValSet.
+From TM Require Export C17.Model C17.ValSet C17.Stop.
 Import ListNotations.
 Open Scope Z_scope.
 
@@ -117,7 +117,22 @@ Inductive case :=
    decode); sh (via 3, 4): the conflicting block's signed header: 0 absent, 1 present without
    header, 2 present with an invalid header.  ok_i: no error; panic_i: the decoder panicked; total_i: TotalVotingPower() of the
    returned set (via 1, 2) *)
-| CValSet (via : N) (powers : list Z) (proposer : option Z) (sh : N) (ok_i panic_i : bool) (total_i : Z).
+| CValSet (via : N) (powers : list Z) (proposer : option Z) (sh : N) (ok_i panic_i : bool) (total_i : Z)
+(* F93, connection level: a real started MConnection is written a packet stream in ONE Write;
+   its onReceive stops the connection (how: 1 Stop, 2 FlushStop) when it is
+   handed a message whose first byte is 238.  descs: (id, RecvMessageCapacity).
+   delivered_i: onReceive journal; nafter_i: calls of onReceive that began after the stop call had
+   returned; nstops_i: how often the callback stopped the connection *)
+| CStopIn (how : N) (descs : list (Z * Z)) (items : list hitem) (delivered_i : list (Z * blob))
+          (nafter_i nstops_i : Z)
+(* F93, node level: a victim node (real Switch, real blockchain/v0 reactor and BlockPool) syncing
+   from an honest peer; a hostile peer sends an invalid blockchain message (inv: 1
+   BlockRequest{Height:-1}, 2 NoBlockResponse{Height:-1}, 3 StatusResponse{Base:5,Height:1},
+   4 BlockResponse{nil}) and StatusResponse{Base:far, Height:far}, back to back (together) or the
+   status first and the invalid message 300 ms later.  dropped_i: the hostile peer is no longer in
+   the victim's Switch.Peers(); ghost_i: the BlockPool still has an entry for it; maxh_i:
+   pool.maxPeerHeight afterwards; top: the honest peer's height; caught_up_i: pool.IsCaughtUp() *)
+| CGhost (together : bool) (inv : N) (far top : Z) (dropped_i ghost_i : bool) (maxh_i : Z) (caught_up_i : bool).
 
 (* ------------------------------------------------------------------ helpers *)
 
@@ -360,4 +375,22 @@ Definition check (c : case) : verdict :=
             | DOk t => negb exact || (ok_i && (total_i =? t))
             | _ => negb ok_i
             end) 31 ]
+  | CStopIn how descs items delivered_i nafter_i nstops_i =>
+    let its := map mk_item items in
+    let del := unhex_j delivered_i in
+    let verdict := fun (_ : Z) (m : bytes) => match m with x :: _ => (x =? 238)%N | [] => false end in
+    let fin := recv_run verdict (new_rstate descs) its in
+    first_of [
+      (* nothing is handed to onReceive after the connection was stopped *)
+      viol (nafter_i =? 0) 7;
+      viol (nstops_i <=? 1) 7;
+      mism (list_eqb jr_eqb (r_delivered (rs_recv fin)) del) 32 ]
+  | CGhost together inv far top dropped_i ghost_i maxh_i caught_up_i =>
+    first_of [
+      (* whatever the peer sent, once it is disconnected nothing of it stays behind ... *)
+      viol (negb dropped_i || negb ghost_i) 33;
+      (* ... and the node is not wedged in block sync *)
+      viol (negb dropped_i || caught_up_i) 21;
+      mism dropped_i 34;
+      mism (negb dropped_i || (maxh_i <=? top)) 35 ]
   end.
